@@ -39,6 +39,10 @@ func runProg(c *Ctx, p *Prog, ck ProgChecks, sigPrefix string) (*Runner, bool) {
 		c.Hung = true
 		return r, true
 	}
+	if r.Tracer != nil {
+		c.Res.CountN("lsm-score", "versions-scored", r.Tracer.nScore)
+		c.Res.CountN("lsm-score", "score>=1", r.Tracer.nScoreGE1)
+	}
 	if r.Failed {
 		small := shrinkProg(p, ck, r.FailSig, failAt)
 		c.Res.Violate(sigPrefix+r.FailSig, msg, map[string]interface{}{"program": small, "original_ops": len(p.Ops), "fail_at": failAt})
